@@ -72,12 +72,14 @@ class GenericMixin:
         generic_base = get_generic_base(obj=self)
 
         if not generic_base:
-            for base in self.__orig_bases__:  # type: ignore # (we checked existence above)
-                if not hasattr(base, '__origin__'):
-                    continue
+            subscripted_bases = [b for b in self.__orig_bases__ if hasattr(b, '__origin__')]  # type: ignore # (exists)
+            mixin_bases = [b for b in subscripted_bases
+                           if isinstance(b.__origin__, type) and issubclass(b.__origin__, GenericMixin)]
 
-                if not (isinstance(base.__origin__, type) and issubclass(base.__origin__, GenericMixin)):
-                    continue  # another parametrized base class (e.g. Sequence[int]) that has nothing to do with this mixin
+            # prefer the parametrized bases that use this mixin: the others (e.g. Sequence[int]) may be unrelated to it
+            for base in mixin_bases or subscripted_bases:
+                if not hasattr(base.__origin__, '__orig_bases__'):
+                    continue
 
                 generic_base = get_generic_base(base.__origin__)
 
